@@ -24,7 +24,7 @@ def decl_methods(all_methods):
 
 
 def is_coord_field(label, field):
-    return field in ("coord", "spec_coord", "paren_coord")
+    return field == "coord" or field.endswith("@coord")
 
 
 def run_group(ctx, rule, methods, field_filter, what, returns=True, appends=True, label_filter=None):
